@@ -21,7 +21,7 @@ CHECKS = {
              "that an immediate reaches the helper with every bit of the destination width, abort freedom of the helpers and actions, and - as closed forms over "
              "the operands - the stored result (R11: affine form equal to the manual's value mod 2^w, per incoming carry) and CF, AF, OF, SF, ZF of ADD/ADC/SUB/SBB/CMP/"
              "INC/DEC (R12: predicate normal forms D>0 / D==0 / xor compared with the manual's definition; a different form comes with a concrete operand "
-             "pair). Does NOT decide PF as a value, nor the flag values of NEG (set by hand-written branches).",
+             "pair; NEG on four operand cells plus the condition of its AF branch). Does NOT decide PF as a value.",
         design="DESIGN.md §6 C01"),
     "C02": dict(
         technique="abstract interpretation of MIR (bit domain exact for logic ops and NOT and, with the count specialised, for every shift and rotate; trace partitioning on the input bits that decide CF/SF/OF; interval abort analysis); sibling fingerprints of byte/word shift and rotate implementations",
@@ -34,10 +34,12 @@ CHECKS = {
 }
 
 CHECKS["C03"] = dict(
-    technique="abstract interpretation of MIR (interval refinement for the zero test, lossy-narrowing dataflow on Div results, may-depend sets) + CFG rules on the Err arm and the driver's INT(0) arm; byte-level frames of the adjust instructions (AH/AL dependencies nibble-wise)",
+    technique="abstract interpretation of MIR (interval refinement for the zero test, lossy-narrowing dataflow on Div results, may-depend sets, affine closed forms with uninterpreted mul/div/rem terms, branch-condition recovery for hand-written flag code) + CFG rules on the Err arm and the driver's INT(0) arm; byte-level frames of the adjust instructions (AH/AL dependencies nibble-wise)",
     text="Decides the divide-error protocol (zero test dominates Div/Rem; MIN/-1; every narrowing cast of a quotient lossless or guarded by a dividend "
          "test; Err => nothing modified, action returns INT(0), driver returns), that CF/OF of MUL/IMUL depend on both factors, frames of MUL/DIV and "
-         "of AAA..CWD, CBW/CWD sign dependency. Does NOT decide products, quotients or decimal-adjust results as numbers.",
+         "of AAA..CWD, CBW/CWD sign dependency; and, as closed forms with uninterpreted product / quotient / remainder terms, AX and DX after MUL, IMUL, DIV, IDIV "
+         "(R11, structural comparison with the manual; divisions on their Ok paths) and the condition under which MUL/IMUL set CF=OF (R12, the condition of the "
+         "helper's flag branch). Does NOT decide the decimal-adjust results as numbers.",
     design="DESIGN.md §6 C03")
 
 CHECKS["C04"] = dict(
